@@ -243,7 +243,7 @@ class AllTimeRespectingPaths(Contract):
             return self.forbid(ctx, 'C13.all_paths.no_exception.%s' % outcome[1], tags=T, note=outcome[2])
         r = outcome[1]
         if r.kind != 'pairmap':
-            return self.forbid(ctx, 'C13.all_paths.returns_the_collected_dict', tags=T, note='result kind %s' % r.kind)
+            return self.shape(ctx, 'C13.all_paths.returns_the_collected_dict', tags=T, note='result kind %s' % r.kind)
         a, b = c.qa, c.qb
         ctx.oblige('C13.all_paths.keys_are_the_pairs_of_the_sources_present_at_min_t', r.has[a][b] == z3.And(c.src(a), c.w.E(a, b)), tags=T)
         ctx.oblige('C13.all_paths.value_is_the_per_source_result', z3.Implies(r.has[a][b], r.val[a][b] == c.w.pv(a, c.w.keyof(a, b))), tags=T)
